@@ -261,22 +261,6 @@ fn nth(a: i64, b: i64, i: i64) -> bool {
     d % a == 0 && d / a >= 0
 }
 
-/// `NthChild::has_index` as coded (wrapping i32 arithmetic)
-fn nth_coded(step: i64, offset: i64, index: i64) -> bool {
-    let (step, offset, index) = (step as i32, offset as i32, index as i32);
-    let offsetted = index.wrapping_sub(offset);
-    if step == 0 {
-        offsetted == 0
-    } else if (offsetted < 0 && step > 0) || (offsetted > 0 && step < 0) {
-        false
-    } else {
-        offsetted.wrapping_rem(step) == 0
-    }
-}
-fn nth_sem(a: i64, b: i64, i: i64, sem: Sem) -> bool {
-    if sem == Sem::FlatNotCodedOps { nth_coded(a, b, i) } else { nth(a, b, i) }
-}
-
 #[derive(Clone, Copy, PartialEq)]
 enum Sem {
     /// CSS Selectors semantics
@@ -284,9 +268,6 @@ enum Sem {
     /// CSS, except that `:not()` is read as lol-html flattens it: every simple selector of the argument
     /// negated separately and conjoined, a nested `:not()` flipping the sign (finding F3)
     FlatNot,
-    /// FlatNot + the coded emptiness tests of `^=` `$=` `~=` (finding: empty operand) + the coded
-    /// wrapping `has_index`
-    FlatNotCodedOps,
 }
 
 fn m_simple(nodes: &[Node], id: usize, s: &Simple, sem: Sem) -> bool {
@@ -304,11 +285,11 @@ fn m_simple(nodes: &[Node], id: usize, s: &Simple, sem: Sem) -> bool {
                 "ih" => n.tag.ns == 'h',
                 _ => false,
             };
-            let coded = sem == Sem::FlatNotCodedOps;
             match op.as_str() {
                 "eq" => ceq(ins, actual, v),
                 "inc" => {
-                    (coded || (!v.is_empty() && !v.iter().any(|&b| is_ws(b))))
+                    !v.is_empty()
+                        && !v.iter().any(|&b| is_ws(b))
                         && actual.split(|&b| is_ws(b)).any(|p| ceq(ins, p, v))
                 }
                 "dash" => {
@@ -316,12 +297,12 @@ fn m_simple(nodes: &[Node], id: usize, s: &Simple, sem: Sem) -> bool {
                         || (actual.len() > v.len() && actual[v.len()] == b'-' && ceq(ins, &actual[..v.len()], v))
                 }
                 "pfx" => {
-                    (if coded { !actual.is_empty() } else { !v.is_empty() })
+                    !v.is_empty()
                         && actual.len() >= v.len()
                         && ceq(ins, &actual[..v.len()], v)
                 }
                 "sfx" => {
-                    (if coded { !actual.is_empty() } else { !v.is_empty() })
+                    !v.is_empty()
                         && actual.len() >= v.len()
                         && ceq(ins, &actual[actual.len() - v.len()..], v)
                 }
@@ -329,10 +310,10 @@ fn m_simple(nodes: &[Node], id: usize, s: &Simple, sem: Sem) -> bool {
                 _ => false,
             }
         }
-        Simple::NthChild(a, b) => nth_sem(*a, *b, n.prev.len() as i64 + 1, sem),
+        Simple::NthChild(a, b) => nth(*a, *b, n.prev.len() as i64 + 1),
         Simple::NthOfType(a, b) => {
             let k = n.prev.iter().filter(|&&p| nodes[p].tag.name.eq_ignore_ascii_case(&n.tag.name)).count();
-            nth_sem(*a, *b, k as i64 + 1, sem)
+            nth(*a, *b, k as i64 + 1)
         }
         Simple::Not(args) => match sem {
             Sem::Css => !args.iter().any(|c| m_compound(nodes, id, c, sem)),
@@ -393,31 +374,6 @@ fn f3_shape(sl: &SelList) -> bool {
     }
     sl.iter().any(|cx| cx.iter().any(|(_, c)| c.iter().any(|s| simple(s, false))))
 }
-fn empty_operand_shape(sl: &SelList) -> bool {
-    fn simple(s: &Simple) -> bool {
-        match s {
-            Simple::Attr(_, op, v, _) => {
-                (v.is_empty() && matches!(op.as_str(), "pfx" | "sfx" | "inc"))
-                    || (op == "inc" && v.iter().any(|&b| is_ws(b)))
-            }
-            Simple::Not(args) => args.iter().any(|c| c.iter().any(simple)),
-            _ => false,
-        }
-    }
-    sl.iter().any(|cx| cx.iter().any(|(_, c)| c.iter().any(simple)))
-}
-
-fn extreme_nth_shape(sl: &SelList) -> bool {
-    fn simple(s: &Simple) -> bool {
-        match s {
-            Simple::NthChild(a, b) | Simple::NthOfType(a, b) => a.abs() >= 1 << 30 || b.abs() >= 1 << 30,
-            Simple::Not(args) => args.iter().any(|c| c.iter().any(simple)),
-            _ => false,
-        }
-    }
-    sl.iter().any(|cx| cx.iter().any(|(_, c)| c.iter().any(simple)))
-}
-
 // ------------------------------------------------------------------------------------------ the real thing
 
 fn hits_str(h: &[(usize, usize)]) -> String {
@@ -535,7 +491,6 @@ pub fn run(line: &str) -> String {
     rs.sort();
     if hs != rs {
         let flat_hits = reference(&sels, &nodes, Sem::FlatNot);
-        let coded_hits = reference(&sels, &nodes, Sem::FlatNotCodedOps);
         let mut tags: Vec<String> = vec![];
         let mut sites: Vec<String> = vec![];
         for (i, sl) in sels.iter().enumerate() {
@@ -548,24 +503,9 @@ pub fn run(line: &str) -> String {
             if h == r {
                 continue;
             }
-            let tag: String = if f3_shape(sl) && h == of(&flat_hits) {
-                "F3-not-compound".into()
-            } else if h == of(&coded_hits) && (empty_operand_shape(sl) || extreme_nth_shape(sl)) {
-                let mut t = vec![];
-                if f3_shape(sl) && of(&flat_hits) != r {
-                    t.push("F3-not-compound");
-                }
-                if empty_operand_shape(sl) {
-                    t.push("attr-empty-operand");
-                }
-                if extreme_nth_shape(sl) {
-                    t.push("nth-i32-wrap");
-                }
-                t.join("+")
-            } else {
-                "mismatch".into()
-            };
-            sites.push(tag.clone());
+            // F3 only when the selector has the shape and the flattened reading explains the hits
+            let tag = if f3_shape(sl) && h == of(&flat_hits) { "F3-not-compound" } else { "mismatch" };
+            sites.push(tag.to_string());
             tags.push(format!("{tag} sel#{i}=`{}` impl={:?} css={:?}", css[i], h, r));
         }
         sites.sort();
